@@ -132,3 +132,39 @@ package cryptoutils
 //@   ensures fresh(result)
 //@   assigns nothing
 //@   safety all
+
+// ---------------------------------------------------------------- C07: RSA signature recovery and hash selection
+// RSAVP1 (RFC 8017 5.2.2): the signature representative s = OS2IP(signature) must lie in [0, n-1]; the result is the
+// message representative m = s^e mod n as an octet string of at least the modulus width (leading zeros kept).
+//@ func RsaDecryptWithPublicKey
+//@   props C07 C12 C14
+//@   requires publicKey.N != nil && publicKey.N.val > 0
+//@   ensures "representative-in-range": result1 == nil ==> len(ciphertext) >= 1 && beS(ciphertext) < publicKey.N.val
+//@   ensures "rsavp1": result1 == nil ==> beS(result0) == modexp(beS(ciphertext), publicKey.E, publicKey.N.val)
+//@   ensures "width": result1 == nil ==> len(result0) >= blen(publicKey.N.val)
+//@   ensures result1 != nil ==> result0 == nil
+//@   ensures fresh(result0)
+//@   assigns nothing
+//@   safety all
+
+// ICAO 9303-11 6.1.2.3: "A hash algorithm, whose output length is of the same length or shorter than the length of the
+// ECDSA key in use, SHALL be used. Only SHA-224, SHA-256, SHA-384 or SHA-512" - the library takes the longest such hash
+// (SHA-224 for shorter keys). Hash identifiers are crypto.Hash values: 4 SHA-224, 5 SHA-256, 6 SHA-384, 7 SHA-512.
+//@ spec func hashBits(alg int) int { 8 * hashLen(alg) }
+//@ spec func ecHashForOrderBits(nbits int) int { nbits >= 512 ? 7 : (nbits >= 384 ? 6 : (nbits >= 256 ? 5 : 4)) }
+//@ func CryptoHashFromEcPubKey
+//@   props C07 C14
+//@   requires pub != nil && pub.Curve != nil
+//@   ensures "sha2-family": 4 <= result && result <= 7
+//@   ensures "not-longer-than-key-unless-sha224": result != 4 ==> hashBits(result) <= bitlen(curveOrder(ref(pub.Curve)))
+//@   ensures "longest-admissible": forall h :: 4 <= h && h <= 7 && hashBits(h) <= bitlen(curveOrder(ref(pub.Curve))) ==> hashBits(h) <= hashBits(result)
+//@   ensures "hash-for-key-size": result == ecHashForOrderBits(bitlen(curveOrder(ref(pub.Curve))))
+//@   assigns nothing
+//@   safety all
+
+// The random source is a parameter of every protocol object: any function that returns the requested number of octets
+// in a fresh buffer (the values themselves are arbitrary). Trusted.
+//@ func (f RandomBytesFn) call(length int) (result []byte)
+//@   trusted
+//@   ensures len(result) == length && fresh(result)
+//@   assigns nothing
